@@ -6,7 +6,8 @@ from props.c05 import value_lattice, oid_lattice, REQIDS
 
 LEVEL = "exploration"
 PROTOS = ["v1", "v2c", "v3n", "v3a_md5", "v3a_sha", "v3p_md5", "v3p_sha"]
-FORM_KEYS = ["top", "pdu", "vbl", "vb", "oid", "int", "str", "usm", "hdr", "spw", "spdu"]
+FORM_KEYS = ["top", "pdu", "vbl", "vb", "oid", "int", "str", "usm", "hdr", "spw", "spdu", "ver", "hf", "sf",
+             "uf_engine", "uf_boots", "uf_time", "uf_user", "uf_auth", "uf_priv"]
 
 
 def sig(tr, v):
@@ -37,6 +38,13 @@ def cases(ctx):
                 vs = [rnd.choice(vals) for _ in range(rnd.choice([1, 3]))]
                 C.append(dict(proto=proto, values=[(a, b, k if key == "value" else None) for a, b in vs], forms={} if key == "value" else {key: k},
                               form="%s%d" % (key, k)))
+    # (a2) single-value operations: get / getnext deliver the same value (markers excluded: a missing object raises NoSuchOID by design)
+    for i, v in enumerate(vals):
+        if v[0] in ("NoSuchObject", "NoSuchInstance", "EndOfMibView"):
+            continue
+        if q and i % 3:
+            continue
+        C.append(dict(proto=PROTOS[(i + 3) % len(PROTOS)], values=[(v[0], v[1], None)], forms={}, form="single", api=("get", "getnext", "walk")[i % 3]))
     # (c) binding list lengths 0..40 and error-index / request-id values
     for n in ([0, 1, 2, 40] if q else list(range(0, 41))):
         C.append(dict(proto=rnd.choice(PROTOS), values=[rnd.choice(vals) + (None,) for _ in range(n)], forms={}, form="count%d" % n))
